@@ -62,11 +62,12 @@ pub fn exec(line: &str, _model: &mut Model) -> Option<Exec> {
             match r {
                 _ if peak > bound => { e = Exec::new(match &r { None => "panic".into(), Some(Err(_)) => "err".into(), Some(Ok(_)) => "ok".into() }); e.oracle_fail = Some(format!("decoding {} input bytes held {} bytes allocated at one time (bound {})", bytes.len(), peak, bound)); }
                 None => { e = Exec::new("panic".into()); e.oracle_fail = Some("decoder panics".into()); }
-                Some(Err(_)) => { e = Exec::new("err".into()); }
+                Some(Err(_)) => { e = Exec::new("err".into()); if bytes.len() <= 4096 { e.oracle_fail = decode_ways(bytes.as_slice()).1; } }
                 Some(Ok(b)) => {
                     let (p, peak_ops) = crate::p_ffi::metered(|| receive_ops(&b));
                     e = Exec::new(format!("ok {} ops={}", show_bundle(&b), match p { None => "ok".to_string(), Some(n) => format!("panic:{}", n.replace(' ', "_")) }));
                     if let Some(n) = p { e.oracle_fail = Some(format!("`{}` panics on a bundle the decoder accepted", n)); }
+                    else if let (true, Some(w)) = (bytes.len() <= 4096, decode_ways(bytes.as_slice()).1) { e.oracle_fail = Some(w); }
                     else if peak_ops > bound { e.oracle_fail = Some(format!("the receive-path operations on a bundle decoded from {} input bytes held {} bytes allocated at one time (bound {})", bytes.len(), peak_ops, bound)); }
                 }
             }
@@ -76,10 +77,10 @@ pub fn exec(line: &str, _model: &mut Model) -> Option<Exec> {
         "fault" => {
             // fault <class> <hex>: a conformant bundle with one structural fault of <class>; must be rejected
             let bytes = unhex(t.get(2)?)?;
-            let r = no_panic(|| Bundle::try_from(bytes.as_slice()));
+            let (r, ways) = decode_ways(bytes.as_slice());
             let mut e = Exec::new(match &r { None => "panic".into(), Some(Err(_)) => "err".into(), Some(Ok(b)) => format!("ok {}", show_bundle(b)) });
             match r {
-                Some(Err(_)) => {}
+                Some(Err(_)) => { e.oracle_fail = ways.map(|w| format!("structural fault of class {}: {}", t[1], w)); }
                 None => e.oracle_fail = Some(format!("decoder panics on a structural fault of class {}", t[1])),
                 Some(Ok(_)) => e.oracle_fail = Some(format!("structural fault of class {} answered with a decoded bundle", t[1])),
             }
